@@ -685,6 +685,19 @@ def c17(tier, seed):
                  {"do": "heal"}, {"do": "sleep", "ms": 6500}, {"do": "discovered", "part": 0}]
         out.append({"name": f"C17-ignorereorder-{k}", "family": "ignorereorder", "seed": seed * 57 + k, "frag": 1344, "steps": steps, "log_meta": True,
                     "max_steps": 12000000})
+    # peers that do not announce their domain id (the parameter is optional on the wire; the simulated network rewrites it into
+    # padding in every datagram): same domain, the tag alone decides
+    for k, tags in enumerate([[None, None, "x"], ["x", "y", "x"], [None, "x", "x", "y", None], ["x", None]]):
+        steps = []
+        for tag in tags:
+            st = {"do": "participant", "domain": 0}
+            if tag:
+                st["tag"] = tag
+            steps.append(st)
+        steps.append({"do": "sleep", "ms": 6000 if k % 2 else 400})
+        steps += [{"do": "discovered", "part": p} for p in range(len(tags))]
+        out.append({"name": f"C17-nodomainid-{k}", "family": "nodomainid", "seed": seed * 59 + k, "frag": 1344, "steps": steps, "log_meta": True,
+                    "strip_domain_id": True, "max_steps": 12000000})
     return out
 
 
